@@ -93,6 +93,46 @@ def run(tier, seed, workers):
     srt = sorted(cards[::-1])
     expect('card:sorted', [int(x) for x in srt], list(range(52)), 'sorted(all cards) by index')
 
+    # ---- cards however they were made ------------------------------------------------------------
+    # The same 52 values reached by every way the value object offers of making one: from a card that has already been used (its
+    # index taken, compared, sorted) by dataclasses.replace / copy / deepcopy / pickle, and by the text and index converters.  What a
+    # card remembers about itself must not travel to a card derived from it.
+    import copy as _copy
+    import dataclasses as _dc
+    import pickle as _pickle
+    used = [Card.int_to_card(i) for i in range(52)]
+    for u in used:
+        int(u), str(u), hash(u)
+    sorted(used[::-1])
+    routes = {'copy': lambda i: _copy.copy(used[i]), 'deepcopy': lambda i: _copy.deepcopy(used[i]),
+              'pickle': lambda i: _pickle.loads(_pickle.dumps(used[i])),
+              'str_to_card(str())': lambda i: Card.str_to_card(str(used[i])), 'int_to_card(int())': lambda i: Card.int_to_card(int(used[i]))}
+    if _dc.is_dataclass(Card) and {f.name for f in _dc.fields(Card) if f.init} >= {'rank', 'suit'}:
+        routes['replace-rank'] = lambda i: _dc.replace(used[(i // 13) * 13 + (i + 1) % 13], rank=i % 13 + 2)
+        routes['replace-suit'] = lambda i: _dc.replace(used[(i + 13) % 52], suit=Suit['CDHS'[i // 13]])
+        routes['replace-both'] = lambda i: _dc.replace(used[51 - i], rank=i % 13 + 2, suit=Suit['CDHS'[i // 13]])
+    for rname, mk in routes.items():
+        made = [_try(mk, i) for i in range(52)]
+        for i, m in enumerate(made):
+            if not isinstance(m, Card):
+                c.violate(f'card:route:{rname}:{i}', f'card {i} made by {rname}: {m}', {'key': f'card:route:{rname}:{i}'})
+                continue
+            expect(f'card:route:{rname}:eq:{i}', (m == cards[i], hash(m) == hash(cards[i])), (True, True), f'card {i} made by {rname} equals the card')
+            expect(f'card:route:{rname}:int:{i}', _try(int, m), i, f'int of card {i} made by {rname}')
+            expect(f'card:route:{rname}:str:{i}', _try(str, m), 'CDHS'[i // 13] + RANKCH[i % 13], f'str of card {i} made by {rname}')
+            expect(f'card:route:{rname}:back:{i}', _try(lambda: Card.int_to_card(int(m))), cards[i], f'int_to_card(int()) of card {i} made by {rname}')
+            for j in (0, max(i - 1, 0), i, min(i + 1, 51), 51, (i + 13) % 52):
+                b = cards[j]
+                c.inc('pairs')
+                got = (_try(lambda: m < b), _try(lambda: m <= b), _try(lambda: m > b), _try(lambda: m >= b), _try(lambda: b < m), m == b)
+                exp = (i < j, i <= j, i > j, i >= j, j < i, i == j)
+                if got != exp:
+                    c.violate(f'card:route:{rname}:order:{i}:{j}', f'card {i} made by {rname} against card {j}: (<,<=,>,>=,reversed <,==) = {got}, index order says {exp}',
+                              {'key': f'card:route:{rname}:order:{i}:{j}'})
+        if all(isinstance(m, Card) for m in made):
+            expect(f'card:route:{rname}:sorted', [int(x) for x in sorted(made[::-1])], list(range(52)), f'sorted(all cards made by {rname})')
+        c.inc('card_construction_routes')
+
     # ---- calls -----------------------------------------------------------------------------------
     texts = {}
     for i, name in enumerate(CALLS):
